@@ -33,7 +33,14 @@ pub enum Op {
     /// forever: accept, run `serve` on the stream in a fresh local task
     AcceptLoop { serve: Vec<Op> },
     Connect { host: u8, port: u16 },
-    Write { len: u16, times: u16, gap: u8 },
+    /// `how`: 0 = write_all, 1 = writable().await then try_write (WouldBlock: wait again)
+    Write {
+        len: u16,
+        times: u16,
+        gap: u8,
+        #[serde(default)]
+        how: u8,
+    },
     Read { buf: u16, times: u16, gap: u8 },
     ReadToEnd { buf: u16 },
     Shutdown,
@@ -441,12 +448,32 @@ fn run_ops(cx: Ctx, ops: Vec<Op>, guard: TaskGuard, stream_in: Option<(TcpStream
                         }
                     }
                 }
-                Op::Write { len, times, gap } => {
+                Op::Write { len, times, gap, how } => {
                     let Some((s, ph, born, acc)) = stream.as_mut() else { continue };
                     let buf = vec![cx.inc as u8; *len as usize];
                     for k in 0..*times {
                         let g = cx.begin(PK::Write, *ph, *born, *acc);
-                        let r = s.write_all(&buf).await;
+                        let r = if *how == 1 {
+                            // readiness style: park in writable(), then try_write
+                            let mut off = 0;
+                            loop {
+                                if let Err(e) = s.writable().await {
+                                    break Err(e);
+                                }
+                                match s.try_write(&buf[off..]) {
+                                    Ok(n) => {
+                                        off += n;
+                                        if off >= buf.len() {
+                                            break Ok(());
+                                        }
+                                    }
+                                    Err(e) if e.kind() == std::io::ErrorKind::WouldBlock => continue,
+                                    Err(e) => break Err(e),
+                                }
+                            }
+                        } else {
+                            s.write_all(&buf).await
+                        };
                         cx.bump();
                         cx.c().sends.fetch_add(1, Ordering::Relaxed);
                         match r {
@@ -861,7 +888,7 @@ fn gen_scenario(rng: &mut Rng) -> Scenario {
                 peer_tasks.push(vec![
                     Op::Sleep { ticks: rng.range(0, 4) as u8 },
                     Op::Connect { host: 0, port: 7011 },
-                    Op::Write { len: *rng.pick(&[1u16, 8, 32]), times, gap: *rng.pick(&[0u8, 0, 1]) },
+                    Op::Write { len: *rng.pick(&[1u16, 8, 32]), times, gap: *rng.pick(&[0u8, 0, 1]), how: if rng.chance(1, 3) { 1 } else { 0 } },
                     Op::ReadToEnd { buf: 16 },
                 ]);
             }
@@ -875,7 +902,7 @@ fn gen_scenario(rng: &mut Rng) -> Scenario {
                     1 => rng.range(cap as u64, cap as u64 + 4) as u16,
                     _ => 300,
                 };
-                v.push(Op::Spawn { local: true, ops: vec![Op::Listen { port: 7012 }, Op::AcceptLoop { serve: vec![Op::Write { len: *rng.pick(&[1u16, 8, 32]), times, gap: wgap }] }] });
+                v.push(Op::Spawn { local: true, ops: vec![Op::Listen { port: 7012 }, Op::AcceptLoop { serve: vec![Op::Write { len: *rng.pick(&[1u16, 8, 32]), times, gap: wgap, how: if rng.chance(1, 3) { 1 } else { 0 } }] }] });
                 peer_tasks.push(vec![Op::Sleep { ticks: rng.range(0, 4) as u8 }, Op::Connect { host: 0, port: 7012 }, Op::Read { buf: *rng.pick(&[4u16, 16, 64]), times: 2000, gap: *rng.pick(&[0u8, 0, 2]) }]);
             }
             3 => {
@@ -936,7 +963,7 @@ fn gen_scenario(rng: &mut Rng) -> Scenario {
                 // what the dialing victim does with the stream: talk and read / read slowly / never read
                 let mut vops = vec![Op::Sleep { ticks: rng.range(0, w as u64 / 2) as u8 }, Op::Connect { host: p0 as u8, port }];
                 match rng.below(3) {
-                    0 => vops.extend([Op::Write { len: 8, times: 1, gap: 0 }, Op::ReadToEnd { buf: 16 }]),
+                    0 => vops.extend([Op::Write { len: 8, times: 1, gap: 0, how: if rng.chance(1, 3) { 1 } else { 0 } }, Op::ReadToEnd { buf: 16 }]),
                     1 => vops.push(Op::Read { buf: *rng.pick(&[4u16, 16, 64]), times: 400, gap: rng.range(1, 3) as u8 }),
                     _ => vops.push(Op::Forever { gap: 2 }),
                 }
@@ -945,8 +972,8 @@ fn gen_scenario(rng: &mut Rng) -> Scenario {
                 // the credits (the acceptor-side counterpart of the blocked-writer phase)
                 let serve = match rng.below(3) {
                     0 => vec![Op::ReadToEnd { buf: 16 }],
-                    1 => vec![Op::Write { len: *rng.pick(&[1u16, 8, 32]), times: rng.range(1, cap.min(12) as u64) as u16, gap: 0 }, Op::ReadToEnd { buf: 16 }],
-                    _ => vec![Op::Write { len: *rng.pick(&[1u16, 8, 32]), times: rng.range(cap as u64 + 1, cap as u64 + 8) as u16, gap: *rng.pick(&[0u8, 0, 1]) }, Op::ReadToEnd { buf: 16 }],
+                    1 => vec![Op::Write { len: *rng.pick(&[1u16, 8, 32]), times: rng.range(1, cap.min(12) as u64) as u16, gap: 0, how: if rng.chance(1, 3) { 1 } else { 0 } }, Op::ReadToEnd { buf: 16 }],
+                    _ => vec![Op::Write { len: *rng.pick(&[1u16, 8, 32]), times: rng.range(cap as u64 + 1, cap as u64 + 8) as u16, gap: *rng.pick(&[0u8, 0, 1]), how: if rng.chance(1, 3) { 1 } else { 0 } }, Op::ReadToEnd { buf: 16 }],
                 };
                 match mode {
                     0 => peer_tasks.push(vec![Op::Listen { port }, Op::AcceptLoop { serve }]),
@@ -999,7 +1026,7 @@ fn gen_scenario(rng: &mut Rng) -> Scenario {
     progs[u0] = vec![
         Op::Spawn { local: true, ops: vec![Op::UdpBind { port: 7102 }, Op::UdpSend { host: (u0 + 1) as u8, g: 0, port: 7101, times: 300, gap: rng.range(1, 3) as u8 }] },
         Op::Spawn { local: rng.bool(), ops: vec![Op::Forever { gap: 1 }] },
-        Op::Spawn { local: true, ops: vec![Op::Sleep { ticks: rng.range(0, 3) as u8 }, Op::Connect { host: (u0 + 1) as u8, port: 7100 }, Op::Write { len: 8, times: 300, gap: rng.range(1, 2) as u8 }] },
+        Op::Spawn { local: true, ops: vec![Op::Sleep { ticks: rng.range(0, 3) as u8 }, Op::Connect { host: (u0 + 1) as u8, port: 7100 }, Op::Write { len: 8, times: 300, gap: rng.range(1, 2) as u8, how: if rng.chance(1, 3) { 1 } else { 0 } }] },
         Op::Forever { gap: 3 },
     ];
     if shared_group {
@@ -1606,6 +1633,16 @@ impl Property for C04 {
             }
             if blocked_writer_trigger(sc) {
                 f.push("peer_writes_more_than_capacity");
+            }
+            fn readiness_writer(ops: &[Op]) -> bool {
+                ops.iter().any(|o| match o {
+                    Op::Write { how: 1, .. } => true,
+                    Op::Spawn { ops, .. } | Op::AcceptLoop { serve: ops } => readiness_writer(ops),
+                    _ => false,
+                })
+            }
+            if sc.hosts.iter().any(|h| h.kind == Kind::Peer && readiness_writer(&h.ops)) {
+                f.push("peer_writes_through_writable_and_try_write");
             }
             let u_member = sc.hosts.iter().any(|h| h.kind == Kind::Uninvolved && {
                 let mut g = Vec::new();
